@@ -271,6 +271,21 @@ static inline int spxSnprintf(char* t, size_t len, const char* s, const char* ar
    v_g = t[g_k];                                      /* ghost snapshot: the copy's byte at the ghost index */
    return g_len;
 }
+/* strncpy(dest, src, n): a plausible replacement of the bounded snprintf copy.  ISO C: no terminator is written when the source
+ * has n or more characters - stated as an obligation, so that an unterminated working copy is reported instead of modelled */
+static inline char* strncpy(char* t, const char* arg, size_t n)
+{
+   __CPROVER_assert(arg == gp_src && gp_src[g_srclen] == '\0', "source is the caller's NUL-terminated string");
+   __CPROVER_assert(n <= SPX_SET_MAX_LINE_LEN, "copy limited to the size of the working buffer");
+   __CPROVER_assert((size_t)g_srclen < n, "strncpy terminates the working copy only if the source is shorter than the limit");
+   __CPROVER_havoc_slice(t, SPX_SET_MAX_LINE_LEN);
+   __CPROVER_assume(0 <= g_len && g_len <= (int)n - 1 - g_slack);
+   t[g_len] = '\0';
+   if(g_slack) t[g_len + 1] = '\0';
+   gp_line = t;
+   v_g = t[g_k];
+   return t;
+}
 struct H : Host
 {
    char* string_;
